@@ -39,6 +39,8 @@ def build():
     s.fv = cc.IntField()
     s.lo = cc.IntField()
     s.hi = cc.IntField()
+    s.fz = cc.IntField()                         # validators that reject a *falsy* value
+    s.fl = cc.ListField(cc.IntField())
     s.free = cc.Schema(dynamic=True)        # a free-form section: no declared fields, only a validator
     s.tags = cc.ListField(cc.StringField(required=True, transform_strip=True))       # required applies to what is stored: the stripped text
     s.labels = cc.DictField(cc.StringField(), cc.StringField(required=True, transform_strip="-"))
@@ -91,6 +93,20 @@ def build():
             raise ValueError("lo must not exceed hi")
         return value
 
+    @cc.validator(s.fz)
+    def v_fz(cfg, value):
+        LOG.append(("fz", id(cfg), value))
+        if value == 0:
+            raise ValueError("must not be zero")
+        return value
+
+    @cc.validator(s.fl)
+    def v_fl(cfg, value):
+        LOG.append(("fl", id(cfg), list(value)))
+        if len(value) == 0:
+            raise ValueError("must not be empty")
+        return value
+
     @cc.validator(s.free)
     def v_free(cfg):
         LOG.append(("free", id(cfg), getattr(cfg, "forbidden", None)))
@@ -118,7 +134,7 @@ def fresh_sub():
 
 
 def fresh():
-    return {"flag": True, "rs": None, "ri": 5, "re": "", "x": None, "y": None, "fv": None, "sub": fresh_sub(), "items": None, "t": {"r": "t"}, "tags": None, "labels": None, "lo": None, "hi": None, "free": {}}
+    return {"flag": True, "rs": None, "ri": 5, "re": "", "x": None, "y": None, "fv": None, "sub": fresh_sub(), "items": None, "t": {"r": "t"}, "tags": None, "labels": None, "lo": None, "hi": None, "free": {}, "fz": None, "fl": None}
 
 
 REQUIRED = {"": ["rs", "ri", "re"], "sub": ["rl", "rd", "rle"], "sub.deep": ["r"], "t": ["r"], "item": ["r"]}
@@ -175,6 +191,10 @@ def apply_tree(state, tree):
             st[k] = [x.strip() for x in v] if k == "tags" else {a: b.strip("-") for a, b in v.items()}
         elif k == "fv" and v is not None and v % 2:
             rej.append(("", "fv", v))      # the field validator rejects the value when it is set
+        elif k == "fz" and v == 0 and v is not None:
+            rej.append(("", "fz", v))
+        elif k == "fl" and v is not None and len(v) == 0:
+            rej.append(("", "fl", v))
         elif k == "lo" and v is not None and st["hi"] is not None and v > st["hi"]:
             rej.append(("", "lo", v))      # the sibling is already there: rejected when it is set
         elif k == "free":
@@ -264,7 +284,7 @@ def read_state(cfg):
     items = None
     if cfg.items is not None:
         items = [{"r": it.r, "n": it.n} for it in cfg.items]
-    return {"lo": cfg.lo, "hi": cfg.hi, "free": {k: v for k, v in cfg.free}, "tags": plain(cfg.tags), "labels": plain(cfg.labels), "flag": cfg.flag, "rs": cfg.rs, "ri": cfg.ri, "re": cfg.re, "x": cfg.x, "y": cfg.y, "fv": cfg.fv,
+    return {"fz": cfg.fz, "fl": plain(cfg.fl), "lo": cfg.lo, "hi": cfg.hi, "free": {k: v for k, v in cfg.free}, "tags": plain(cfg.tags), "labels": plain(cfg.labels), "flag": cfg.flag, "rs": cfg.rs, "ri": cfg.ri, "re": cfg.re, "x": cfg.x, "y": cfg.y, "fv": cfg.fv,
             "sub": {"enabled": cfg.sub.enabled, "rl": plain(cfg.sub.rl), "rd": plain(cfg.sub.rd), "rle": plain(cfg.sub.rle), "a": cfg.sub.a,
                     "deep": {"on": cfg.sub.deep.on, "r": cfg.sub.deep.r}},
             "items": items, "t": {"r": cfg.t.r}}
@@ -303,6 +323,8 @@ def side_inputs(tier):
         {"items": []},
         {"t": {"r": None}},
         {"items": [{"r": "", "n": 1}]},
+        {"fz": 0},
+        {"fz": 3, "fl": []},
         {"lo": 10, "hi": 5},
         {"hi": 5, "lo": 10},
         {"lo": 1, "hi": 5, "free": {"anything": 1}},
@@ -323,7 +345,7 @@ def make_tree(leaves, flags, side):
     for k in ("rs", "ri", "re"):
         if leaves[k] is not ABSENT:
             t[k] = leaves[k]
-    for k in ("x", "y", "fv", "tags", "labels", "lo", "hi", "free"):
+    for k in ("x", "y", "fv", "tags", "labels", "lo", "hi", "free", "fz", "fl"):
         if k in side:
             t[k] = copy.deepcopy(side[k])
     sub = {}
